@@ -1432,6 +1432,10 @@ pub fn gen_sub(prop: &str, tier: &str, seed: u64) -> Out {
 /// implementation model or by an oracle on the real code: the specification functions of the driver
 /// (`spec:` ops, encodeSpec) are written for proofs and take time exponential in the depth.
 fn nested_lines(prop: &str, r: &mut Rng, o: &mut Out) {
+    if prop == "C14" {
+        // the depth byte saturates at 255: the key bytes themselves beyond that depth (no order claim there)
+        for depth in [254usize, 255, 256, 300] { let v = nested_doc(r, depth); o.push(format!("cmpkey - {}", hex(&v.to_vec()))); }
+    }
     let depths: &[usize] = if prop == "C14" { &[10, 25, 31] } else { NEST_DEPTHS };
     for &depth in depths {
         let v = nested_doc(r, depth);
